@@ -450,13 +450,27 @@ def prune_dataflow_cache(world: World):
     if not world.use_cache:
         return
     min_cache_time = min(s.last_step.time for s in world.sims.values())
+    # Time-shifted connections pull data from further in the past.
+    max_shifts: Dict[SimRunner, int] = {}
+    for dest_sim in world.sims.values():
+        for src_sim, delay in dest_sim.pulled_inputs:
+            max_shifts[src_sim] = max(max_shifts.get(src_sim, 0), delay.tiers[0])
     for sim in world.sims.values():
         if sim.outputs:
-            sim.outputs = {
-                time: cache
-                for time, cache in sim.outputs.items()
-                if time >= min_cache_time
-            }
+            # The newest entry that is not later than the earliest time
+            # that might still be requested is still valid for that
+            # time, so we need to keep it (and all later ones).
+            earliest_request = min_cache_time - max_shifts.get(sim, 0)
+            keep_from = max(
+                (time for time in sim.outputs if time <= earliest_request),
+                default=None,
+            )
+            if keep_from is not None:
+                sim.outputs = {
+                    time: cache
+                    for time, cache in sim.outputs.items()
+                    if time >= keep_from
+                }
 
 
 def get_progress(sims: Dict[SimId, SimRunner], until: int) -> float:
